@@ -1,0 +1,8 @@
+//go:build !verif
+// +build !verif
+
+package parse
+
+func verifLex(ev string, l *lexer, a, b int) {}
+
+func verifParseReturn(l *lexer, errp *error) {}
